@@ -34,8 +34,25 @@ class Driver(object):
                    ' s returns page=p, page_count=ceil(n/s), items p-th slice']
 
     def run_case(self, m):
+        import re
         n, s = m['n'], m['s']
-        items = [dict(name='item-%d' % k, idx=k) for k in range(n)]
+        extra = m.get('extra', 0)       # objects the name filter excludes
+        # the server holds n matching objects and `extra` non-matching ones,
+        # interleaved; like RabbitMQ it filters by name (substring or regex),
+        # reports total_count before and filtered_count after the filter, and
+        # answers 400 for a page beyond the last one
+        allitems = []
+        k = 0
+        for j in range(n + extra):
+            if j % 2 == 1 and (j // 2) < extra or k >= n:
+                allitems.append(dict(name='zzz-%d' % j, idx=-1))
+            else:
+                allitems.append(dict(name='item-%d' % k, idx=k))
+                k += 1
+        if m['name'] is None or extra == 0:
+            items = [it for it in allitems if it['idx'] >= 0]
+        else:
+            items = [it for it in allitems if it['idx'] >= 0]
 
         def responder(req):
             q = mgmt.query_of(req)
@@ -43,13 +60,22 @@ class Driver(object):
             ps = int(q['page_size'][0]) if 'page_size' in q else 100
             if 'pagination' not in q:
                 return 200, items
-            return 200, dict(page=p, page_count=ceil(n, ps), page_size=ps,
-                             total_count=n, filtered_count=n,
+            pc = ceil(len(items), ps)
+            if p > 1 and p > pc:
+                return 400, dict(error='bad_request', reason='Page out of range')
+            return 200, dict(page=p, page_count=pc, page_size=ps,
+                             total_count=len(allitems), filtered_count=len(items),
                              item_count=len(items[(p - 1) * ps:p * ps]),
                              items=items[(p - 1) * ps:p * ps])
         api, ad = mgmt.make_api(responder)
         kw = dict(name=m['name'], page_size=s, use_regex=m['rx'])
         w = m['wrapper']
+        try:
+            return self._call(api, ad, w, kw)
+        except Exception as why:
+            return None, repr(why)
+
+    def _call(self, api, ad, w, kw):
         if w == 'http_client':
             res = api.http_client.list('queues', **kw)
         elif w == 'queue':
@@ -78,6 +104,11 @@ class Driver(object):
 
     def make_case(self, m):
         res, reqs = self.run_case(m)
+        if res is None:
+            failed = reqs
+            res, reqs = [], []
+        else:
+            failed = None
         rx = m['rx']
         rxb = None if not rx else (str(rx) if isinstance(rx, bool) else rx)
         cin = ('{| pg_n := %s; pg_size := %s; pg_flt := {| f_name := %s; '
@@ -86,7 +117,7 @@ class Driver(object):
                    coq_option(coq_bytes(m['name']) if m['name'] is not None
                               else None),
                    coq_option(coq_bytes(rxb) if rxb is not None else None)))
-        cobs = ('{| pg_result := %s; pg_reqs := %s; pg_fuel_out := false |}' % (
+        cobs = ('{| pg_result := %s; pg_reqs := %s; pg_fuel_out := %s |}' % (
             '(' + coq_list(['%d' % k for k in res]) + '%N)',
             coq_list(['{| o_page := %s; o_size := %s; o_name := %s; '
                       'o_regex := %s; o_pagination := %s |}' % (
@@ -95,8 +126,11 @@ class Driver(object):
                                      if r['name'] is not None else None),
                           coq_option(coq_bytes(r['rx'])
                                      if r['rx'] is not None else None),
-                          coq_bool(r['pag'])) for r in reqs])))
+                          coq_bool(r['pag'])) for r in reqs]),
+            coq_bool(failed is not None)))
         m = dict(m)
+        if failed:
+            m['raised'] = failed
         m['paths'] = sorted(set((r['method'], r['path']) for r in reqs))
         return dict(cin=cin, cobs=cobs, meta=m)
 
@@ -115,17 +149,19 @@ class Driver(object):
                 name, rx = flts[k % len(flts)]
                 w = WRAPPERS[k % len(WRAPPERS)]
                 k += 1
-                metas.append(dict(n=n, s=s, name=name, rx=rx, wrapper=w))
+                metas.append(dict(n=n, s=s, name=name, rx=rx, wrapper=w,
+                                  extra=(k % 4) if name is not None else 0))
         # every wrapper x every filter on a multi-page listing
         for w, (name, rx) in itertools.product(WRAPPERS, flts):
-            metas.append(dict(n=7, s=3, name=name, rx=rx, wrapper=w))
-            metas.append(dict(n=6, s=3, name=name, rx=rx, wrapper=w))
+            metas.append(dict(n=7, s=3, name=name, rx=rx, wrapper=w, extra=2 if name else 0))
+            metas.append(dict(n=6, s=3, name=name, rx=rx, wrapper=w, extra=5 if name else 0))
         for _ in range(40 if tier == 'quick' else 400):
             s = rnd.choice([1, 2, 7, 50, 100, 500])
             n = rnd.randrange(0, 1200)
             name, rx = rnd.choice(flts)
             metas.append(dict(n=n, s=s, name=name, rx=rx,
-                              wrapper=rnd.choice(WRAPPERS)))
+                              wrapper=rnd.choice(WRAPPERS),
+                              extra=rnd.randrange(0, 30) if name else 0))
         return [self.make_case(m) for m in metas]
 
     def replay_cases(self, doc):
